@@ -20,7 +20,7 @@ func init() {
 			"R13-poolrelease — a call-frame segment handed back to the shared sync.Pool is not used, nor is an address into it returned, on any later path of the releasing function; R13-sendguard — every Lua value placed in a channel send position passed isGoroutineSafe with a raising arm, isGoroutineSafe rejects functions, userdata, threads and tables with metatables, and no blocking channel operation sits in a loop (send/receive/close map 1:1 to Go channel operations). " +
 			"NOT decided: race freedom of heap objects reachable through values, ordering and exactly-once delivery (trusted to the Go runtime once the 1:1 mapping holds).",
 		Trusted: []string{"exported configuration variables (RegistrySize, MaxArrayIndex, …) are set by the embedder before states run"},
-		Rules:   []func(*Ctx){ruleGlobalSlicesNotAliased, ruleAlloc, ruleGlobals, ruleProto, ruleSendGuard, rulePoolRelease, ruleSharedRand, ruleStdStreams, ruleFreeAllOnlyOnClose, ruleSelectDispatchesFiredCase},
+		Rules:   []func(*Ctx){ruleNoSharedLuaObjects, ruleGlobalSlicesNotAliased, ruleAlloc, ruleGlobals, ruleProto, ruleSendGuard, rulePoolRelease, ruleSharedRand, ruleStdStreams, ruleFreeAllOnlyOnClose, ruleSelectDispatchesFiredCase},
 	})
 }
 
